@@ -74,6 +74,27 @@ def type_keys(rng, v, p=0.3):
     return v
 
 
+# set by props/c13.py: dictionary keys that the path encoding of the configuration walk rewrites ('/', '%', '', '.', '..') — the runtime
+# objects must keep the configuration's own keys (seeded change C13h); off elsewhere: the random streams of the other checks are unchanged
+PATH_KEYS = False
+_PATH_KEYS = ["a/b", "50%", "..", ".", "", "%2F", "x/"]
+
+
+def path_keys(rng, v, p=0.5):
+    if isinstance(v, dict):
+        if "l" in v:
+            return {"l": [path_keys(rng, x, p) for x in v["l"]]}
+        if "d" in v:
+            items = [[k, path_keys(rng, x, p)] for k, x in v["d"]]
+            for i in range(len(items)):
+                if items[i][0] not in ("type", "value") and rng.random() < p:
+                    free = [k for k in _PATH_KEYS if k not in [kk for kk, _ in items]]
+                    if free:
+                        items[i][0] = rng.choice(free)
+            return {"d": items}
+    return v
+
+
 def gen_graph(rng, lib, max_nodes=8, cycles=True, task_links=True, tags=True):
     g = cfggen.gen_graph(rng, lib, max_nodes=max_nodes, cycles=cycles)
     for nd in g["nodes"]:
@@ -84,6 +105,8 @@ def gen_graph(rng, lib, max_nodes=8, cycles=True, task_links=True, tags=True):
             pair = pair[::-1]
         pool = iter(pair or ())
         nd["values"] = [[k, ({"p": next(pool, None) or rng.choice(DATA_POOL)} if k in data else type_keys(rng, v))] for k, v in nd["values"]]
+        if PATH_KEYS:
+            nd["values"] = [[k, v if k in data else path_keys(rng, v)] for k, v in nd["values"]]
         if not task_links:
             nd["task"] = None
         if tags and rng.random() < 0.25:
